@@ -56,6 +56,18 @@ def wif_for_blob(blob: bytes) -> str:
 assert network.address is not None
 network.address.b2a = b2a_hashed_base58_grs
 network.bip32_as_string = bip32_as_string
+
+
+def _hd_as_string(prv_prefix: bytes, pub_prefix: bytes) -> Any:
+    def f(blob: bytes, as_private: bool) -> str:
+        return b2a_hashed_base58_grs((prv_prefix if as_private else pub_prefix) + blob)
+
+    return f
+
+
+# the BIP49 / BIP84 text forms use the same checksum as every other Groestlcoin Base58 string
+network.bip49_as_string = _hd_as_string(h2b("044a4e28"), h2b("044a5262"))
+network.bip84_as_string = _hd_as_string(h2b("045f18bc"), h2b("045f1cf6"))
 network.wif_for_blob = wif_for_blob
 
 # Cause parsing to fail and tests to skip.
